@@ -11,6 +11,72 @@ BASE = ("cd /repo && env -u ONNXSCRIPT_VERIF /venv/bin/python -m pytest -ra -q -
 
 # id -> dict(level, text, note, technique, design_ref)
 CHECKS = {
+    "C01": dict(
+        level="model_checking",
+        text="Script.tla derives programs of the ONNX Script subset by grammar actions, gives them their Python meaning, transcribes analysis.py "
+             "(assigned_vars, liveness fix-points, exposed_uses) and the converter's scope/If-output/Loop-state selection and refusal rules, and defines "
+             "what the emitted graph computes; TLC checks Faithful (refused or equal to Python wherever Python is defined) on every program up to the "
+             "bound and on simulated deeper derivations. Every derived program is rendered to source, decorated with the real script(), run eagerly, as "
+             "to_model_proto() on ORT and as a model calling to_function_proto(), and compared with TLC's Python values.",
+        note="values are INT64 scalars on 6 inputs; expression menu is fixed (incl. sub-function call and attribute parameter); ORT executes If/Loop as ONNX "
+             "specifies; quick replays a stratified seeded sample, thorough all programs of the larger bound",
+        technique="TLA+ model of converter liveness/scoping vs Python semantics, TLC exhaustive + simulation, derived programs replayed into script()/eager/ORT",
+        design_ref="DESIGN.md section 4 C01",
+    ),
+    "C10": dict(
+        level="model_checking",
+        text="VersionConvert.tla models convert_version as a pipeline of named steps (entry form, inline, path decision, per-node adapter steps incl. "
+             "swallowed adapter errors, opset setting, fallback to the C API with initializer recovery, proto copy-back) over models built from the real "
+             "ONNX schema history (dumped to JSON); TLC checks Prop (declared = target or unchanged; consistent; valid; equivalent; signature and "
+             "initializers kept) on the design and Explained on the implementation model; every TLC configuration is built as a real model, converted by "
+             "the real code and judged by checker, opset fields and ORT before/after.",
+        note="source/target in 18..25, DFT/GridSample/GroupNormalization/unchanged ops at top level, in If bodies and in functions; equivalence judged on "
+             "two seeded inputs; sources the checker rejects are not judged for validity",
+        technique="TLA+ pipeline model over real schema history, TLC exhaustive, every configuration replayed into convert_version + checker + ORT",
+        design_ref="DESIGN.md section 4 C10",
+    ),
+    "C15": dict(
+        level="model_checking",
+        text="ProtoIR.tla models each proto wrapper step by step (deserialize with payload aliasing, passes, serialize, Clear/CopyFrom, graph-only copy-back) "
+             "over models as carriers->tokens and checks proto result = serialize(IR result), untouched carriers preserved, argument kept/mutated per "
+             "contract, serde adds nothing and is idempotent; TensorPayload.tla enumerates element type x storage x shape x metadata payload cases. "
+             "Every TLC case is built as a real ModelProto/TensorProto, run through both entry forms of the real APIs and diffed field by field.",
+        note="pairwise-complete (quick) / 3-wise (thorough) carrier switch sets over a fixed host graph; map/sparse/training_info not generated",
+        technique="TLA+ model of proto/IR wrappers with aliasing + payload enumeration, TLC exhaustive, cases replayed with field-by-field proto diff",
+        design_ref="DESIGN.md section 4 C15",
+    ),
+    "C16": dict(
+        level="model_checking",
+        text="AtenBinding.tla runs the exporter's argument binding (scripted: _construct_named_inputs_and_attrs; trace-only: the Python call convention) as a "
+             "state machine on every entry of the real registry joined with the installed PyTorch schemas and every call shape; TorchRegistry.tla models "
+             "torch_op/Registry.register/get_torchlib_ops over registration histories. Each call shape is executed on the real objects and the observed "
+             "binding is judged by TLC; registration histories are replayed into a fresh Registry; scripted FunctionProtos go through the ONNX checker.",
+        note="sentinel arguments; None for optional arguments not explored; installed PyTorch 2.14 schemas are the reference",
+        technique="TLA+ binding state machine over the real registry x torch schemas, TLC exhaustive, each call shape executed and judged by TLC",
+        design_ref="DESIGN.md section 4 C16",
+    ),
+    "C17": dict(
+        level="model_checking",
+        text="OpsetDispatch.tla reads the real onnx.defs registry (JSON) and models what opgen generates (class chain, one method per schema, parameter "
+             "lists/defaults) and one access+call opsetN.Op(...) as a state machine (MRO lookup, dynamic lookup, binding, get_schema, input trimming, "
+             "forwarding); invariants Mirror/DynAgrees/TrimInv against the declarative reading of ONNX. All lookups, 630 signatures and 16k-47k calls with "
+             "sentinel arguments are replayed step by step into the real generated classes; eager-with-defaults vs bare node executed on ORT for 68 ops.",
+        note="attribute defaults compared at float32 precision as ONNX stores them; deprecated operators are expected to have no method",
+        technique="TLA+ model of generated opset classes + dispatch over the real schema registry, TLC exhaustive, step-level replay into the real classes",
+        design_ref="DESIGN.md section 4 C17",
+    ),
+    "C20": dict(
+        level="model_checking",
+        text="ExternalSave.tla models save_model_with_external_data -> ir.save(external_data) as a state machine over the real call sequence (guard, path "
+             "derivation, classify, load small, materialise, plan offsets, open/pad/write/close data, swap, serialize, write model, restore) with a fault "
+             "action that makes any file-system call fail (or write short) at most once; invariants MemUnchanged, RoundTrip, Refusal, Layout. Every emitted "
+             "case (initializer kinds x fault point x verbose x pre-existing files) is replayed into the real function under a file-system shim; the "
+             "shim's recorded call sequence must equal the spec's trace.",
+        note="faults are injected at open/write/flush/close; ndarray.tofile writes through the descriptor so it is faulted via the preceding flush; reads and "
+             "os.path probes never fail",
+        technique="TLA+ state machine with fault action, TLC exhaustive over initializer kinds x fault points, fault-injected replay + call-sequence conformance",
+        design_ref="DESIGN.md section 4 C20",
+    ),
     "C11": dict(
         level="model_checking",
         text="Indexing.tla defines NumPy indexing, the converter's Slice/Squeeze/Gather lowering and the eager lowering over exact ONNX "
